@@ -53,3 +53,64 @@ Proof.
     + destruct (IH (release k cur) n) as (n' & Hn' & Hr); [rewrite release_node_at_ne by exact Hne; exact Hn|]. eauto.
   - apply IH. exact Hn.
 Qed.
+
+(* ------------------------------------------------------------------ immutability / unique ownership *)
+From AV Require Import Proofs.C16_Mut Proofs.C16_Excl.
+
+Lemma reach_excl ops : Excl (run ops init).
+Proof. apply run_excl; [apply init_inv|apply init_excl]. Qed.
+
+Lemma exclusive_objects_unique_l ops i o id :
+  get_slot (run ops init) i = Some o -> is_excl_kind (okind o) = true -> In id (obj_refs o) ->
+  cnt (run ops init) id = 1.
+Proof. intros. eapply reach_excl; eauto. Qed.
+
+Lemma mutation_requires_unique_r ops p id :
+  id < length (nodes (run ops init)) ->
+  reg_bytes (step (run ops init) p) id <> reg_bytes (run ops init) id ->
+  0 < count_occ Nat.eq_dec (acts (run ops init) (o_a p)) id
+  /\ cnt (run ops init) id = count_occ Nat.eq_dec (acts (run ops init) (o_a p)) id.
+Proof. intros Hlt Hne. apply (mutation_requires_unique_l _ p id (reach_excl ops) Hlt Hne). Qed.
+
+Lemma immutability_r ops p j o :
+  get_slot (run ops init) j = Some o -> j <> o_a p ->
+  view (step (run ops init) p) o = view (run ops init) o.
+Proof. intros Hs Hne. apply (immutability_l _ p j o (reach_excl ops) (inv1 _ (reach_inv ops)) Hs Hne). Qed.
+
+(* the object an operation does NOT act on also stays in its slot, except the validity slot that the
+   array constructors (11, 13) consume *)
+Lemma other_slots_stay ops p j :
+  j <> o_a p -> (o_code p = 11 \/ o_code p = 13 -> j <> o_b p) -> j < length (slots (run ops init)) ->
+  nth_error (slots (step (run ops init) p)) j = nth_error (slots (run ops init)) j.
+Proof.
+  intros Ha Hb Hlt. unfold step. rewrite settle_slots.
+  apply (ra_slots _ _ _ _ (exec_rawA (run ops init) p (reach_inv ops))); [|exact Hlt].
+  unfold opT. destruct (o_code p) as [|[|[|[|[|[|[|[|[|[|[|[|[|[|c]]]]]]]]]]]]]]; cbn [In]; try tauto;
+    intros H; repeat (destruct H as [H|H]); try contradiction; try (apply Ha; congruence); apply Hb; auto.
+Qed.
+
+(* ------------------------------------------------------------------ non-vacuity *)
+Definition ex_ops : list op :=
+  [ mkOp 1 0 0 0 0 [1;2;3;4;5;6;7;8]%Z 0 0;      (* custom region, slot 0 *)
+    mkOp 3 0 0 0 0 [] 0 0;                        (* clone -> slot 1 *)
+    mkOp 11 0 0 0 0 [] 0 0;                       (* slot 0 becomes an Int32Array *)
+    mkOp 20 0 0 0 0 [] 0 0;                       (* export -> slot 2 *)
+    mkOp 21 2 0 0 0 [] 0 0;                       (* import: slot 2 is the imported array *)
+    mkOp 5 0 0 0 0 [] 0 0; mkOp 5 1 0 0 0 [] 0 0 ]%Z.
+
+(* after dropping the original array and its clone, the imported array still keeps the custom owner alive *)
+Example ex_alive : cust_counters (run ex_ops init) = [0%Z] /\ exp_counters (run ex_ops init) = [0%Z]
+                   /\ slot_view (run ex_ops init) (nth 2 (slots (run ex_ops init)) None) = Some [1;2;3;4;5;6;7;8]%Z.
+Proof. vm_compute. auto. Qed.
+(* dropping the imported array releases the structure and then the owner, once each *)
+Example ex_released : cust_counters (run (ex_ops ++ [mkOp 5 2 0 0 0 [] 0%Z 0%Z]) init) = [1%Z]
+                      /\ exp_counters (run (ex_ops ++ [mkOp 5 2 0 0 0 [] 0%Z 0%Z]) init) = [1%Z].
+Proof. vm_compute. auto. Qed.
+(* a unique standard buffer can be mutated in place, a shared one cannot *)
+Example ex_mutation :
+  let ops := [ mkOp 0 1 0 0 0 [9;9;9;9]%Z 0%Z 0%Z; mkOp 3 0 0 0 0 [] 0%Z 0%Z; mkOp 6 0 0 0 0 [] 0%Z 0%Z;
+               mkOp 5 1 0 0 0 [] 0%Z 0%Z; mkOp 6 0 0 0 0 [] 0%Z 0%Z; mkOp 8 0 2 7 0 [] 2%Z 7%Z ] in
+  step_flag (run (firstn 2 ops) init) (nth 2 ops (mkOp 99 0 0 0 0 [] 0%Z 0%Z)) = 2%Z
+  /\ step_flag (run (firstn 4 ops) init) (nth 4 ops (mkOp 99 0 0 0 0 [] 0%Z 0%Z)) = 1%Z
+  /\ reg_bytes (run ops init) 0 = [9;9;7;9]%Z.
+Proof. vm_compute. auto. Qed.
